@@ -307,7 +307,7 @@ pub fn assumptions(prop: &str) -> Vec<String> {
     if prop == "C11" {
         v.push("tier A's stream stub reproduces std's contract as measured on rustc 1.95 on this image (line-buffered stdout, panic on write error, tail flushed at exit with errors ignored, EBADF is silent success); tier B (real children) keeps it honest and any fault-free disagreement is a violation".to_string());
         v.push("tier B covers Linux, pipes, /dev/full, closed descriptors, a pipe without reader and a pseudo terminal on one of the two streams (never both: a colour build colours its output there by design); argc = 0 and write errors in mid-stream exist in tier A only".to_string());
-        v.push("definitions in this corpus keep the default max_width of 100 where monochrome() and print_message() must agree".to_string());
+        v.push("for definitions with their own max_width (one in four) the promised text is what ParseFailure::print_message(width) writes for the failure run_inner returned; for the others it is built from monochrome() plus the documented prefix and newline".to_string());
     }
     if prop == "C18" {
         v.push("relational rules R2-R5 are evaluated only on command lines the oracle's scanner fully understands and only for items in the contexts argued sound in DESIGN.md section 7 (C18); other lines and contexts still get R1 and R7".to_string());
